@@ -8,7 +8,7 @@ from .c06 import apply_pre
 from .core import canon, jhash
 
 ID = 'C07'
-RULE = ('every operation with an inplace flag (filter by ids / by function, transform, norm, pa, rankdata, remove_empty, update_ids) x '
+RULE = ('every operation with an inplace flag (filter by ids given as list / tuple / set / dict keys / array / ONE-SHOT iterables (generator, iter, map) / by function, transform, norm, pa, rankdata, remove_empty, update_ids) x '
         'inplace in {True, False}, every operation documented to return a new table (sort, sort_order (order as list or as a view of the '
         "receiver's own id array), transpose, copy, head, subsample (by count / by id), partition, collapse, merge, concat, align_to) and "
         'the two mutators add_metadata / del_metadata, and the export to_dataframe (dense / sparse, after a layout-changing read access; '
@@ -162,7 +162,11 @@ def _call(c, t, other):
         if a.get('as_function'):
             ks = set(keep)
             return t.filter(lambda v, i, m: i in ks, axis=ax, invert=a['invert'], inplace=ip)
-        return t.filter(keep, axis=ax, invert=a['invert'], inplace=ip)
+        # one-shot iterables: a new one per call, it can be read once only
+        coll = {'generator': lambda: (x for x in keep), 'iter': lambda: iter(keep), 'map': lambda: map(str, keep),
+                'tuple': lambda: tuple(keep), 'set': lambda: set(keep), 'dictkeys': lambda: {x: 1 for x in keep}.keys(),
+                'array': lambda: np.array(keep, dtype=object)}.get(a.get('ctype'), lambda: keep)()
+        return t.filter(coll, axis=ax, invert=a['invert'], inplace=ip)
     if op == 'transform':
         return t.transform(TF[a['f']], axis=ax, inplace=ip)
     if op == 'norm':
@@ -649,7 +653,8 @@ def _case(rng, op, axis=None, inplace=False, md=None, lay=None):
     if op == 'filter':
         keep = [i for i in ids if rng.random() < 0.6] or ids[:1]
         inv = rng.random() < 0.3 and len(keep) < len(ids)
-        a.update(keep=keep, invert=inv, as_function=rng.random() < 0.4)
+        a.update(keep=keep, invert=inv, as_function=rng.random() < 0.3,
+                 ctype=rng.choice(['list', 'generator', 'iter', 'map', 'tuple', 'set', 'dictkeys', 'array']))
         if rng.random() < 0.06 and not a['as_function']:
             a['keep'] = keep + ['nope']
     elif op == 'transform':
@@ -817,6 +822,15 @@ def gen(rng, tier):
                                  'onto_retained_last': {'id_map': [[ids[-1], ids[0]], ['ghost', 'g']], 'strict': False},
                                  'strict_incomplete': {'id_map': [[i, i + 'x'] for i in ids[1:]], 'strict': True}}[kind]
                     yield c
+        # filter by a one-shot iterable (generator expression, iter(list), map): both variants read it once and agree
+        for ctype in ('generator', 'iter', 'map'):
+            for axis in ('observation', 'sample'):
+                for inplace in (True, False):
+                    for invert in (False, True):
+                        c = _case(rng, 'filter', axis, inplace)
+                        ids = list(c['spec']['oids'] if axis == 'observation' else c['spec']['sids'])
+                        c['args'] = {'keep': ids[:-1] if not invert else ids[:1], 'invert': invert, 'as_function': False, 'ctype': ctype}
+                        yield c
         # merge with an EMPTY collection of others (what tables[0].merge(tables[1:]) does with one table): fast path
         # (no metadata, union) and general path (metadata, or an intersection) must both return a new table
         for md in (['none', 'none'], ['flat', 'none'], ['none', 'nested'], ['nested', 'flat']):
@@ -871,6 +885,8 @@ def classify(c):
         tags.append('history:%s(%s)' % tuple(c['hist']))
     if c.get('grp'):
         tags.append('group-metadata:%s' % c['grp'])
+    if c['op'] == 'filter' and not c['args'].get('as_function'):
+        tags.append('filter-ids-as:%s' % c['args'].get('ctype', 'list'))
     if c['op'] == 'merge' and c.get('args', {}).get('others'):
         tags.append('merge:empty-%s/%s' % (c['args']['others'], c['args'].get('how')))
     if c['op'] == 'to_dataframe':
